@@ -164,6 +164,10 @@ var concFontIDs = []string{"cff", "cffgtab", "cffgsub", "cid", "ttf", "ttfgtab",
 var concNameFonts = []string{"sttf", "sttfdup", "sttfempty", "sttfnotdef0", "sttfshort", "sttfnonames",
 	"cffdup", "cffempty", "cffnotdef0"}
 
+// concRawFonts: TrueType fonts whose raw tables (shared with header.Write) have lengths that are
+// not multiples of four and spare capacity over live data or over poisoned bytes.
+var concRawFonts = []string{"sttf+img", "sttf+imgj", "sttf+odd", "ttf+img", "ttf+odd", "sttfnest+img"}
+
 // concShapeFonts: variants taken from the interesting-input lists of the other properties.
 var concShapeFonts = []string{"sttfnest", "sttfkern", "sttf12", "sttfgtab", "cidmulti", "cff12"}
 
@@ -344,6 +348,80 @@ func concMultiFD(f *sfnt.Font) {
 // concFont builds a fresh font from its id (nothing is shared between two calls except the
 // package-level tables of the library and the embedded font files).
 func concFont(id string) *sfnt.Font {
+	base, variant := id, ""
+	for _, suf := range []string{"+img", "+imgj", "+odd"} {
+		if strings.HasSuffix(id, suf) {
+			base, variant = strings.TrimSuffix(id, suf), suf
+		}
+	}
+	f := concFontRaw(base)
+	// spare capacity of every byte slice in the graph (io.ReadAll leaves cap > len, zero-filled)
+	// is filled with 0xEE so that a stray zero-padding append into it shows in the hash
+	deepPoison(f)
+	if variant != "" {
+		concRawTables(f, variant)
+	}
+	return f
+}
+
+// concImageTables are raw TrueType tables whose lengths are not multiples of four.
+var concImageTables = []struct {
+	name string
+	data []byte
+}{
+	{"fpgm", []byte{0xB8, 0x01, 0xFF, 0x85, 0x1D}},
+	{"prep", []byte{0xB8, 0x01, 0xFF, 0x85, 0xB0, 0x04, 0x8D}},
+	{"cvt ", []byte{0x00, 0x14, 0x00, 0x28, 0x00, 0x3C}},
+	{"gasp", []byte{0x00, 0x01, 0x00, 0x01, 0xFF, 0xFF, 0x00, 0x0F, 0x77}},
+}
+
+// concRawTables replaces the raw tables of a TrueType font (the byte slices the font shares with
+// header.Write on every Write):
+//
+//	+img   adjacent sub-slices of ONE image, as a loader that keeps the file in one buffer makes
+//	       them: table i has spare capacity reaching over tables i+1.. (live data)
+//	+imgj  the same, with 0xEE bytes after the last table
+//	+odd   the font's own tables, each cut to a length ≢ 0 (mod 4) in a private buffer with
+//	       16 bytes of 0xEE spare capacity
+func concRawTables(f *sfnt.Font, variant string) {
+	o, ok := f.Outlines.(*glyf.Outlines)
+	if !ok {
+		return
+	}
+	switch variant {
+	case "+img", "+imgj":
+		var image []byte
+		for _, t := range concImageTables {
+			image = append(image, t.data...)
+		}
+		n := len(image)
+		if variant == "+imgj" {
+			image = append(image, bytes.Repeat([]byte{0xEE}, 24)...)
+		} else {
+			image = image[:n:n]
+		}
+		o.Tables = map[string][]byte{}
+		pos := 0
+		for _, t := range concImageTables {
+			o.Tables[t.name] = image[pos : pos+len(t.data)] // capacity runs to the end of the image
+			pos += len(t.data)
+		}
+	case "+odd":
+		tabs := map[string][]byte{}
+		for name, data := range o.Tables {
+			l := len(data)
+			if l%4 == 0 && l > 1 {
+				l--
+			}
+			buf := bytes.Repeat([]byte{0xEE}, l+16)
+			copy(buf, data[:l])
+			tabs[name] = buf[:l]
+		}
+		o.Tables = tabs
+	}
+}
+
+func concFontRaw(id string) *sfnt.Font {
 	var f *sfnt.Font
 	switch {
 	case id == "cff", id == "cffgtab", id == "cffgsub", id == "cid":
@@ -851,6 +929,121 @@ func concParallel(fd Fields) string {
 	return "equal"
 }
 
+// ---- header.Write on tables that share one image ------------------------------------------------
+
+var concHdrNames = []string{"cvt ", "fpgm", "prep", "gasp", "glyf", "loca", "hmtx", "hhea", "maxp", "name", "post", "OS/2", "cmap", "kern", "DSIG", "zzzz"}
+
+// concHdrWrite: `conc.hdrwrite seed=<n> tables=<k> head=<0|1> threads=<N>`.  k tables (random
+// names, lengths 1..40, mostly not multiples of four) are ADJACENT sub-slices of one image with
+// 0xEE bytes behind the last one; table i has spare capacity reaching over all later tables.
+// header.Write must not store anything into that memory (the only documented in-place write is
+// the checksum field head[8:12], which is masked when a head table is present), and successive /
+// concurrent calls must produce identical bytes.
+func concHdrWrite(fd Fields) string {
+	var seed uint64
+	fmt.Sscan(fd["seed"], &seed)
+	r := &concRng{s: seed}
+	k := fd.Int("tables")
+	withHead := fd["head"] == "1"
+	threads := fd.Int("threads")
+	if k < 1 || k > len(concHdrNames) || threads < 1 {
+		return "bad-case"
+	}
+	names := append([]string{}, concHdrNames...)
+	for i := len(names) - 1; i > 0; i-- {
+		j := r.intn(i + 1)
+		names[i], names[j] = names[j], names[i]
+	}
+	names = names[:k]
+	if withHead {
+		names[r.intn(k)] = "head"
+	}
+	var image []byte
+	type ext struct{ lo, hi int }
+	where := map[string]ext{}
+	for _, nm := range names {
+		l := 1 + r.intn(40)
+		if nm == "head" {
+			l = 54
+		}
+		lo := len(image)
+		for i := 0; i < l; i++ {
+			image = append(image, byte(1+r.intn(255)))
+		}
+		where[nm] = ext{lo, lo + l}
+	}
+	image = append(image, bytes.Repeat([]byte{0xEE}, 16)...)
+	tables := map[string][]byte{}
+	for nm, e := range where {
+		tables[nm] = image[e.lo:e.hi] // no capacity limit: cap runs to the end of the image
+	}
+	masked := func() []byte {
+		c := bytes.Clone(image)
+		if e, ok := where["head"]; ok {
+			copy(c[e.lo+8:e.lo+12], []byte{0, 0, 0, 0})
+		}
+		return c
+	}
+	before := masked()
+	write := func() string {
+		var buf bytes.Buffer
+		n, err := header.Write(&buf, header.ScalerTypeTrueType, tables)
+		return fmt.Sprintf("n=%d,err=%v,%s", n, err, concSum(buf.Bytes()))
+	}
+	changed := func(when string) string {
+		now := masked()
+		if bytes.Equal(now, before) {
+			return ""
+		}
+		for i := range now {
+			if now[i] != before[i] {
+				for nm, e := range where {
+					if e.lo <= i && i < e.hi {
+						return fmt.Sprintf("changed:table=%s,offset=%d(%s)", strings.TrimSpace(nm), i-e.lo, when)
+					}
+				}
+				return fmt.Sprintf("changed:image-tail,offset=%d(%s)", i, when)
+			}
+		}
+		return "changed"
+	}
+	r1 := guard(write)
+	if c := changed("first-write"); c != "" {
+		return c
+	}
+	r2 := guard(write)
+	if c := changed("second-write"); c != "" {
+		return c
+	}
+	if r1 != r2 {
+		return "differs:successive,first=" + r1 + ",second=" + r2
+	}
+	if threads > 1 && !withHead { // with a head table concurrent calls share the documented in-place patch
+		out := make([]string, threads)
+		var wg sync.WaitGroup
+		start := make(chan struct{})
+		for g := 0; g < threads; g++ {
+			wg.Add(1)
+			go func(g int) {
+				defer wg.Done()
+				<-start
+				out[g] = guard(write)
+			}(g)
+		}
+		close(start)
+		wg.Wait()
+		if c := changed("concurrent"); c != "" {
+			return c
+		}
+		for g := range out {
+			if out[g] != r1 {
+				return fmt.Sprintf("differs:g=%d", g)
+			}
+		}
+	}
+	return "unchanged"
+}
+
 // ---- race detector --------------------------------------------------------------------------------
 
 var (
@@ -989,6 +1182,7 @@ func areaConc(c *Ctx) {
 	fonts := append([]string{}, concFontIDs...)
 	fonts = append(fonts, concNameFonts...)
 	fonts = append(fonts, concShapeFonts...)
+	fonts = append(fonts, concRawFonts...)
 	for _, i := range []int{0, 7, 19, 33, 48, 61, 77, 90, 104, 118} {
 		if i < len(testcases.Gsub) {
 			fonts = append(fonts, fmt.Sprintf("tc%d", i))
@@ -1012,8 +1206,10 @@ func areaConc(c *Ctx) {
 			return Pick(c.Rng, concFontIDs)
 		case x < 6:
 			return Pick(c.Rng, concNameFonts)
-		case x < 8:
+		case x < 7:
 			return Pick(c.Rng, concShapeFonts)
+		case x < 8:
+			return Pick(c.Rng, concRawFonts)
 		}
 		return Pick(c.Rng, fonts)
 	}
@@ -1058,6 +1254,12 @@ func areaConc(c *Ctx) {
 	}
 	for _, id := range concShapeFonts {
 		for _, op := range []string{"subset", "write", "layout", "glyphnames"} {
+			pure(op, id)
+			i++
+		}
+	}
+	for _, id := range concRawFonts {
+		for _, op := range []string{"write", "writepdf", "subset"} {
 			pure(op, id)
 			i++
 		}
@@ -1138,7 +1340,20 @@ func areaConc(c *Ctx) {
 			nRace = 20
 		}
 	}
-	nPar := c.N - nPure - nRace
+	nHdr := c.N / 12
+	for j := 0; j < nHdr; j++ {
+		k := c.Rng.Range(2, 10)
+		head := 0
+		if c.Rng.Chance(1, 3) {
+			head = 1
+		}
+		th := c.Rng.Range(1, 8)
+		out := c.Case(Direct, "conc.hdrwrite", fmt.Sprintf("seed=%d tables=%d head=%d threads=%d", c.Rng.U64()>>1, k, head, th), true)
+		c.Stat("hdrwrite.tables", bucket(k))
+		c.Stat("hdrwrite.head", fmt.Sprint(head))
+		c.Stat("hdrwrite.result", strings.SplitN(out, ":", 2)[0])
+	}
+	nPar := c.N - nPure - nRace - nHdr
 	for j := 0; j < nPar; j++ {
 		args, threads, k := mkPar(false)
 		out := c.Case(Direct, "conc.parallel", args, true)
@@ -1177,6 +1392,7 @@ func init() {
 	areas["conc"] = areaConc
 	ops["conc.pure"] = concPure
 	ops["conc.parallel"] = concParallel
+	ops["conc.hdrwrite"] = concHdrWrite
 	ops["conc.race"] = concRace
 	ops["conc.raceinfo"] = func(f Fields) string { return "info" }
 	// positive controls: only the class of the outcome is reported
